@@ -1,6 +1,7 @@
 import Driver.Util
 import KonstVerif.Model.LitDecode
 import KonstVerif.Model.ParserMethod
+import KonstVerif.Model.ParserMethodUse
 import KonstVerif.Spec.ParserMethod
 /-
   requests:  pm <form> <base> <input-hex> <arms>       arms = <branch>:<src>:<byteshex>,…
@@ -106,6 +107,196 @@ def handle (args : List String) : Option (String × String) := do
         | "trim_end_matches" => fromEnd (some (0, trimEndSpec sarms input))
         | _ => "bad-op"
     if model = "bad-op" then none else some (model, spec)
+  | _ => none
+
+/-! ### the macro as an expression of a program (vlib/progs/c18h.py)
+
+  requests:  pm.at.<pos> | pm.place.<shape> | pm.hyg.<case>   <form> <base> <input-hex> <arms>
+             pm.placefx.<shape> <form> <i0/i1/..> <in0,in1,in2,in3> <arms>
+  model: `Konst.PM.Use` (place evaluations, binders; no form pastes a body inside a loop of its own —
+         `bodiesInHiddenLoop` is constantly false since 5e6c5eb, so a body's `break` / `continue` / `break v` acts on
+         the caller's loop in the units below) on the decoder model's bytes;
+  spec: the property's description applied to the place evaluated once, bodies in a plain `match`.
+  The functions `evalPos` / `brkUnit` / … are the semantics of the generated Rust units (the code around the
+  macro, which is ours), parametric in what the macro does.  -/
+open Konst.PM.Use
+
+def parseForm : String → Option Form
+  | "strip_prefix" => some .stripPrefix
+  | "strip_suffix" => some .stripSuffix
+  | "find_skip" => some .findSkip
+  | "rfind_skip" => some .rfindSkip
+  | "trim_start_matches" => some .trimStart
+  | "trim_end_matches" => some .trimEnd
+  | _ => none
+
+def dual : Form → Form
+  | .stripPrefix => .stripSuffix | .stripSuffix => .stripPrefix
+  | .findSkip => .rfindSkip | .rfindSkip => .findSkip
+  | .trimStart => .trimEnd | .trimEnd => .trimStart
+
+/-- the property's description as a step on a parser (offsets as `Parser` reports them) -/
+def specStep (sarms : List (Nat × List Nat)) (f : Form) (p : PState) : Outcome :=
+  let len := p.rem.length
+  let fromStart (r : Option (Nat × List Nat)) : Outcome :=
+    match r with
+    | some (b, rem) => (some b, ⟨p.start + (len - rem.length), rem⟩)
+    | none => (none, p)
+  let fromEnd (r : Option (Nat × List Nat)) : Outcome :=
+    match r with
+    | some (b, rem) => (some b, ⟨p.start, rem⟩)
+    | none => (none, p)
+  match f with
+  | .stripPrefix => fromStart (stripPrefixSpec sarms p.rem)
+  | .stripSuffix => fromEnd (stripSuffixSpec sarms p.rem)
+  | .findSkip => fromStart (findSkipSpec sarms p.rem)
+  | .rfindSkip => fromEnd (rfindSkipSpec sarms p.rem)
+  | .trimStart => fromStart (some (0, trimStartSpec sarms p.rem))
+  | .trimEnd => fromEnd (some (0, trimEndSpec sarms p.rem))
+
+def code : Option Nat → Nat
+  | some b => b
+  | none => 9
+
+/-- what the macro does, as far as the units can tell -/
+structure Sem where
+  step : Form → PState → Outcome
+  skip1 : PState → PState
+  skipBack1 : PState → PState
+
+/-- `while i < 3 { i += 1; M{ {n += 10;}  {n += 100; break}  {n += 1;} }; n += 1000; }` -/
+def brkUnit (S : Sem) (f : Form) : Nat → Nat → PState → Nat × PState
+  | 0, n, p => (n, p)
+  | fuel + 1, n, p =>
+    match S.step f p with
+    | (none, q) => brkUnit S f fuel (n + 1 + 1000) q
+    | (some 0, q) => brkUnit S f fuel (n + 10 + 1000) q
+    | (some _, q) => (n + 100, q)
+
+/-- `… M{ {n += 10; k += 1; if k % 2 == 1 {continue;}}  {n += 100;}  {n += 1;} }; n += 1000; …`
+    (`labeled`: the `continue` names the caller's loop, and branch 1 is `break 'outer`) -/
+def contUnit (S : Sem) (f : Form) (labeled : Bool) : Nat → Nat → Nat → PState → Nat × PState
+  | 0, n, _, p => (n, p)
+  | fuel + 1, n, k, p =>
+    match S.step f p with
+    | (none, q) => contUnit S f labeled fuel (n + 1 + 1000) k q
+    | (some 0, q) =>
+      if (k + 1) % 2 == 1 then contUnit S f labeled fuel (n + 10) (k + 1) q
+      else contUnit S f labeled fuel (n + 10 + 1000) (k + 1) q
+    | (some _, q) => if labeled then (n + 100, q) else contUnit S f labeled fuel (n + 100 + 1000) k q
+
+/-- `loop { i += 1; if i > 3 { break 7 + n; } let v = M{ break 40 + n, 1, 9 }; n += v; if v == 9 { break 50 + n; } }` -/
+def brkvalUnit (S : Sem) (f : Form) : Nat → Nat → PState → Nat × PState
+  | 0, n, p => (7 + n, p)
+  | fuel + 1, n, p =>
+    match S.step f p with
+    | (none, q) => (50 + (n + 9), q)
+    | (some 0, q) => (40 + n, q)
+    | (some _, q) => brkvalUnit S f fuel (n + 1) q
+
+def evalPos (S : Sem) (pos : String) (f : Form) (base : Nat) (p : PState) : Option (String × PState) :=
+  let (b, q) := S.step f p
+  let c := code b
+  let num (n : Nat) (st : PState) : Option (String × PState) := some (toString n, st)
+  match pos with
+  | "let" | "marm" | "stmt" | "bf.exprcomma" | "bf.block" | "bf.blockcomma" | "bf.mixed" | "bf.ifmatch"
+  | "constitem" | "tstmt" | "tlet" | "ttail" | "tconstfn" | "tclosure" => num c q
+  | "ifc" => num (if c = 0 then 50 else 60) q
+  | "scrut" => num (match c with | 0 => 70 | 1 => 71 | _ => 79) q
+  | "arg2" => let (b2, q2) := S.step f q; num (c * 10 + code b2) q2
+  | "binop" => num (1 + c + 100) q
+  | "try" => num (match c with | 1 => 1001 | _ => c + 100) q
+  | "closure" => num (c + 1) q
+  | "constfn" => num (if c = 0 then 1 else 0) q
+  | "once" => some (s!"{c}:" ++ (match b with | some n => toString n | none => "d"), q)
+  | "reads" => num ((match c with | 0 => 0 | 1 => 50 | _ => 100) + q.rem.length) q
+  | "writes" => num c (if c = 1 then S.skipBack1 q else S.skip1 q)
+  | "nested" => if c = 0 then (let (b2, q2) := S.step f q; num (10 + code b2) q2) else num c q
+  | "nestedd" => if b.isNone then (let (b2, q2) := S.step (dual f) q; num (90 + code b2) q2) else num c q
+  | "nestedt" =>
+    if c = 0 then num 0 (S.step .trimStart q).2 else if b.isNone then num 9 (S.step .trimEnd q).2 else num c q
+  | "ret" => num (match c with | 0 => 40 | 1 => 101 | _ => 49) q
+  | "brk" => let (n, r) := brkUnit S f 3 0 p; num n r
+  | "cont" => let (n, r) := contUnit S f false 3 0 0 p; num n r
+  | "lbl" => let (n, r) := contUnit S f true 3 0 0 p; num n r
+  | "brkval" => let (n, r) := brkvalUnit S f 3 0 p; num n r
+  | "tmarm" => if base = 0 then num 0 q else num 0 (S.step (dual f) p).2
+  | "tloop" => num 0 (S.step f q).2
+  | _ => none
+
+def showVP (v : String) (p : PState) : String :=
+  v ++ s!"|{p.start}|{p.start + p.rem.length}|" ++ toHex p.rem
+
+def showFx (o : FxOut) : String :=
+  match o with
+  | .panic n => s!"panic|{n}"
+  | .done b n ps =>
+    s!"{code b}|{n}|" ++ ";".intercalate (ps.map fun p => s!"{p.start}:{p.start + p.rem.length}:" ++ toHex p.rem)
+
+def modelSem (marms : List (Nat × List Nat)) : Sem :=
+  { step := fun f p => run f marms p
+    skip1 := fun p => skip p 1
+    skipBack1 := fun p => skipBack p 1 }
+
+/-- the unit's inputs are ASCII: one byte is one char -/
+def specSem (sarms : List (Nat × List Nat)) : Sem :=
+  { step := specStep sarms
+    skip1 := fun p => ⟨p.start + min 1 p.rem.length, p.rem.drop 1⟩
+    skipBack1 := fun p => ⟨p.start, p.rem.dropLast⟩ }
+
+def decodeArms (arms : String) : Option (Option (List (Nat × List Nat)) × Option (List (Nat × List Nat))) := do
+  let as_ ← parseArms arms
+  let decs ← as_.mapM fun a => decodeSrc a.src
+  let marms? : Option (List (Nat × List Nat)) :=
+    (as_.zip decs).mapM fun (a, d) => match d with | .ok bs => some (a.branch, bs) | .error _ => none
+  let sarms? : Option (List (Nat × List Nat)) := as_.mapM fun a => a.bytes.map fun bs => (a.branch, bs)
+  some (marms?, sarms?)
+
+def owns (op : String) : Bool :=
+  op.startsWith "pm.at." || op.startsWith "pm.place." || op.startsWith "pm.hyg." || op.startsWith "pm.placefx."
+
+def handleUse (op : String) (args : List String) : Option (String × String) := do
+  match args with
+  | [form, a1, a2, arms] =>
+    let f ← parseForm form
+    let (marms?, sarms?) ← decodeArms arms
+    if op.startsWith "pm.placefx." then
+      let st ← (a1.splitOn "/").mapM String.toNat?
+      let ins ← (a2.splitOn ",").mapM parseHex
+      if st.isEmpty || ins.length ≠ 4 || st.any (· ≥ 4) then none
+      let ps : List PState := (List.range 4).zip ins |>.map fun (i, bs) => ⟨10 * i, bs⟩
+      let model := match marms? with
+        | none => "reject"
+        | some marms => showFx (placeRun f marms ps st)
+      let spec := match sarms? with
+        | none => "?"
+        | some sarms => showFx (placeOnce (specStep sarms f) ps st)
+      some (model, spec)
+    else
+      let base ← a1.toNat?
+      let input ← parseHex a2
+      let p : PState := ⟨base, input⟩
+      -- position name, value offset, rejection predicted by the model
+      let (pos, off, rejects) ←
+        if op.startsWith "pm.at." then some ((op.drop 6).toString, 0, false)
+        else if op.startsWith "pm.place." then some ("let", 0, false)
+        else
+          let case := (op.drop 7).toString
+          match case.splitOn "." with
+          | ["locals"] => some ("let", if f = .trimStart || f = .trimEnd then 0 else 123, false)
+          | ["pvar", _] | ["shadow", _] => some ("let", 0, false)
+          | ["item", kind, name] => some ("let", 0, callerItemRejects f kind name)
+          | _ => none
+      let render (S : Sem) : Option String := do
+        let (v, q) ← evalPos S pos f base p
+        if off = 0 then some (showVP v q) else some (showVP (toString (off + (← v.toNat?))) q)
+      let model ← match marms? with
+        | none => some "reject"
+        | some marms => if rejects then some "reject" else render (modelSem marms)
+      let spec ← match sarms? with
+        | none => some "?"
+        | some sarms => render (specSem sarms)
+      some (model, spec)
   | _ => none
 
 end Driver.C18
